@@ -111,6 +111,10 @@ def rand_body_node(rng, ids, depth, dep_p=0.25):
             base_ = "<style>s%d{}</style>" % rng.randint(1, 2)
             return {"k": "headc", "c": [{"k": "html", "s": rng.choice([base_, base_ + " ", " " + base_, "\n" + base_ + "\n", base_.upper(), base_.replace("{", " {"), base_ + "\n"])}]}
         return {"k": "headc", "c": [gen.TAG("title", {"k": "text", "s": "hc%d" % rng.randint(1, 3)})]}
+    if r < dep_p + 0.13:
+        # a widget attaches its dependency (or head content) to the void element it returns: collected like anywhere else
+        carried = [rand_dep(rng, ids)] + ([{"k": "headc", "c": [gen.TAG("title", {"k": "text", "s": "hc%d" % rng.randint(1, 3)})]}] if rng.random() < 0.4 else [])
+        return gen.TAG(rng.choice(["input", "img", "br", "hr", "wbr", "embed"]), *carried, ws=False, via_fn=False, attrs=[["id", {"t": "str", "s": ids.next("v")}]])
     if depth <= 0 or r < 0.55:
         return lg.leaf(rng.choice(["text", "text", "html", "obj", "meta"]), ids)
     block = rng.random() < 0.6
@@ -389,9 +393,25 @@ def check_saved_then_rendered(ctx, rng, scratch_dir):
     mk = lambda: ht.HTMLDocument(ht.div("doc", ht.HTMLDependency("filedep", "1.2", source={"subdir": src}, script={"src": "f.js"}),     # noqa: E731
                                         ht.HTMLDependency("urldep", "2.0", source={"href": "https://cdn.example/u"}, stylesheet={"href": "u.css"})), lang="en")
     doc, fresh = mk(), mk()
-    libdir = rng.choice(["assets", "../assets", None, "a/b"])
+    libdir = rng.choice(["assets", "../assets", None, "a/b", "./assets", "assets/", "", "a//b", "a/../b"])
     iv = rng.random() < 0.5
     ctx.count("oracle.saved_then_rendered")
+    # the page a tag / a list / a document writes is the document rendered with the library directory - spelled as given - as prefix
+    how = rng.choice(["tag", "list", "document"])
+    content = ht.div("doc", ht.HTMLDependency("filedep", "1.2", source={"subdir": src}, script={"src": "f.js"}),
+                     ht.HTMLDependency("urldep", "2.0", source={"href": "https://cdn.example/u"}, stylesheet={"href": "u.css"}))
+    obj = content if how == "tag" else ht.TagList(content, "y") if how == "list" else ht.HTMLDocument(content)
+    out_dir = os.path.join(scratch_dir, "entry%d" % ctx.counters["oracle.saved_then_rendered"], "pages")
+    os.makedirs(out_dir)
+    file_ = os.path.join(out_dir, "index.html")
+    ret = obj.save_html(file_, libdir=libdir, include_version=iv)
+    with open(file_, encoding="utf-8", newline="") as fh:
+        written = fh.read()
+    want_page = (obj if how == "document" else ht.HTMLDocument(obj)).render(lib_prefix=libdir, include_version=iv)["html"]
+    if written != want_page or ret != file_:
+        ctx.violation("saved-page-differs", "%s.save_html(libdir=%r) wrote a page that differs from the document rendered with lib_prefix=%r" % (how, libdir, libdir),
+                      {"scenario": "saved page vs rendering", "entry": how, "libdir": libdir, "include_version": iv, "got": written[:700], "want": want_page[:700]})
+        return False
     page_dir = os.path.join(scratch_dir, "site%d" % ctx.counters["oracle.saved_then_rendered"], "pages")
     os.makedirs(page_dir)
     doc.save_html(os.path.join(page_dir, "index.html"), libdir=libdir, include_version=iv)
